@@ -12,6 +12,7 @@ import (
 	"sync"
 	"time"
 
+	ysgo "github.com/remieven/ysgo"
 	"github.com/remieven/ysgo/verifharness/core"
 	"github.com/remieven/ysgo/verifharness/gen"
 	"github.com/remieven/ysgo/verifharness/hast"
@@ -62,7 +63,7 @@ func (c18) Thresholds(tier string) map[string]int64 {
 }
 
 func (c18) Rule() string {
-	return "case = one fresh child process under the race detector (cold ANTLR DFA / prediction-context caches, GOMAXPROCS=16): G in {2, 8, 16, 64} goroutines are released by one barrier; each creates 1-3 runners from different generated programs (parsing concurrently), registers functions and commands and steps them along a PRNG choice policy with PRNG runtime.Gosched() between steps; programs use markup, the random built-ins with seeds, visit counts, variables and commands. During the concurrent phase the harness performs no synchronisation of its own (per-goroutine logs with monotonic time stamps, merged afterwards), so that it cannot hide a race. Afterwards the same (program, seed, choice policy) executions are repeated sequentially in another fresh process. Oracle: every concurrent execution has the digest of its sequential reference (elements, errors, final variables) and the parent finds zero race-detector reports with a ysgo/antlr frame in the GORACE log files. Non-trivial: >=2 goroutines each stepping >=1 runner whose steps interleave in the merged log. Distinct by hash of the interleaving prefix."
+	return "case = one fresh child process under the race detector (cold ANTLR DFA / prediction-context caches, GOMAXPROCS=16): G in {2, 8, 16, 64} goroutines are released by one barrier; each creates 1-3 runners from different generated programs (parsing concurrently), registers functions and commands and steps them along a PRNG choice policy with PRNG runtime.Gosched() between steps; programs use markup, the random built-ins with seeds, visit counts, variables and commands; every runner runs a raw command whose handler reads its arguments later from a goroutine of its own (they must still be the words written in that runner's script), and every second runner is first restored from ONE snapshot value shared by all goroutines. During the concurrent phase the harness performs no synchronisation of its own (per-goroutine logs with monotonic time stamps, merged afterwards), so that it cannot hide a race. Afterwards the same (program, seed, choice policy) executions are repeated sequentially in another fresh process. Oracle: every concurrent execution has the digest of its sequential reference (elements, errors, final variables) and the parent finds zero race-detector reports with a ysgo/antlr frame in the GORACE log files. Non-trivial: >=2 goroutines each stepping >=1 runner whose steps interleave in the merged log. Distinct by hash of the interleaving prefix."
 }
 
 func (c18) Assumptions() []string {
@@ -110,15 +111,20 @@ func (p c18) Run(c *core.Ctx) {
 			// every runner exercises, right at its start, each feature that could sit in a package-level
 			// variable: every marker kind (replacement markers in open and self-closing form), the random
 			// built-ins, visit counts, conversions, commands and functions
-			prog.Nodes[0].Body = append(c18Prelude(), prog.Nodes[0].Body...)
+			choiceSeed := r.U64()
+			tag := fmt.Sprintf("w%x", choiceSeed&0xffffff)
+			prog.Nodes[0].Body = append(c18Prelude(tag), prog.Nodes[0].Body...)
 			scripts := hast.Render(prog, hast.L0())
 			// one runner in four is created without a seed (its trace cannot be compared, its creation and
 			// stepping still run under the race detector)
 			seed := []string{"a", "k3", "zz9", "0", "seed", "x1y2", "", ""}[r.Intn(8)]
-			jobs[g] = append(jobs[g], &job{item: c09Item{Idx: id, Scripts: scripts, Seed: seed, ChoiceSeed: r.U64()}})
+			jobs[g] = append(jobs[g], &job{item: c09Item{Idx: id, Scripts: scripts, Seed: seed, ChoiceSeed: choiceSeed, Tag: tag, Restore: id%2 == 0}})
 			id++
 		}
 	}
+	// ONE snapshot value is handed to every runner that restores (in every goroutine): restoring must
+	// copy what it needs
+	shared := startSnapshot()
 	base := time.Now()
 	firstStart := make([]int64, G)
 	firstDone := make([]int64, G)
@@ -139,7 +145,7 @@ func (p c18) Run(c *core.Ctx) {
 				if k == 0 {
 					firstStart[g] = int64(time.Since(base))
 				}
-				j.digest, j.sum = c18Exec(j.item, gr, &logs[g], base, func() {
+				j.digest, j.sum = c18Exec(j.item, shared, gr, &logs[g], base, func() {
 					if k == 0 && firstDone[g] == 0 {
 						firstDone[g] = int64(time.Since(base))
 					}
@@ -242,8 +248,12 @@ func (p c18) Run(c *core.Ctx) {
 
 // c18Exec is c09Exec with a per-goroutine step log and PRNG Gosched between steps. It performs no
 // synchronisation of its own.
-func c18Exec(it c09Item, gr *core.Rand, log *[]c18Step, base time.Time, created func()) (string, string) {
-	return c09ExecHooked(it.Scripts, it.Seed, it.ChoiceSeed, func(step int) {
+func c18Exec(it c09Item, shared *ysgo.Snapshot, gr *core.Rand, log *[]c18Step, base time.Time, created func()) (string, string) {
+	eo := execOpts{tag: it.Tag}
+	if it.Restore {
+		eo.restore = shared
+	}
+	return c09ExecOpts(it.Scripts, it.Seed, it.ChoiceSeed, func(step int) {
 		if step == 0 {
 			created()
 		}
@@ -251,7 +261,7 @@ func c18Exec(it c09Item, gr *core.Rand, log *[]c18Step, base time.Time, created 
 		if gr.Chance(1, 3) {
 			runtime.Gosched()
 		}
-	})
+	}, eo)
 }
 
 // Parent counts race-detector reports.
@@ -262,7 +272,7 @@ func (c18) Parent(p *core.ParentCtx, merged *core.Result) {
 	}
 }
 
-func c18Prelude() []*hast.Stmt {
+func c18Prelude(tag string) []*hast.Stmt {
 	line := func(parts ...hast.Part) *hast.Stmt { return &hast.Stmt{K: hast.SLine, Parts: parts} }
 	call := func(f string, a ...*hast.Expr) hast.Part { return hast.Inl(hast.Call(f, a...)) }
 	return []*hast.Stmt{
@@ -276,6 +286,7 @@ func c18Prelude() []*hast.Stmt {
 		{K: hast.SCommand, Name: "act", Args: []hast.CmdArg{{Word: "x"}, {Word: "1"}, {Word: "true"}}},
 		{K: hast.SCommand, Name: "emote", Args: []hast.CmdArg{{X: hast.Call("dice", hast.Num("4"))}}},
 		{K: hast.SCall, X: hast.Call("cap", hast.Num("1"), hast.Call("pure", hast.Str("v")))},
+		{K: hast.SCommand, Name: "later", Args: []hast.CmdArg{{Word: tag}, {Word: tag}, {Word: tag}}},
 		line(hast.Lit("prelude done")),
 	}
 }
